@@ -383,7 +383,7 @@ func c01E2E(c *lab.Ctx) {
 	n := 0
 	for _, p := range pairs {
 		for ui, u := range uris {
-			reps := c.Pick(2, 8)
+			reps := c.Pick(5, 8)
 			for r := 0; r < reps; r++ {
 				cs := &c01Case{pair: p.name, uri: u}
 				cs.method = methods[(ui+r+n)%len(methods)]
@@ -504,7 +504,7 @@ func c01E2E(c *lab.Ctx) {
 	sizes := []int{0, 1, 1000, 65536, 65537, 1 << 20}
 	var relayed int64
 	id := 0
-	for rep := 0; rep < c.Pick(2, 10); rep++ {
+	for rep := 0; rep < c.Pick(5, 10); rep++ {
 		for _, sh := range shapes {
 			for _, sz := range sizes {
 				id++
